@@ -175,8 +175,22 @@ func decMain(args []string) error {
 			for i := 0; i < *per; i++ {
 				cases = append(cases, randDigits(rng, 1+rng.Intn(p)))
 			}
-			for _, ds := range cases {
+			// the binary boundaries of the unscaled integer: 2^k and its neighbours (machine words underneath)
+			nBin := len(cases)
+			for _, k := range []uint{7, 8, 15, 16, 31, 32, 63, 64, 127} {
+				for d := -1; d <= 1; d++ {
+					x := new(big.Int).Lsh(big.NewInt(1), k)
+					x.Add(x, big.NewInt(int64(d)))
+					if ds := digitsOf(x); len(ds) <= p {
+						cases = append(cases, ds, ds) // once with each sign
+					}
+				}
+			}
+			for ci, ds := range cases {
 				neg := rng.Intn(2) == 0
+				if ci >= nBin {
+					neg = (ci-nBin)%2 == 0
+				}
 				decFmt(tr, p, s, neg, ds)
 				// text variants of the same number
 				ip, fp := digitStr(ds), ""
